@@ -6,18 +6,18 @@ import FP.Model.Search
 * `FlowInput.withK` — the `kFlowDecomp` instance `MinFlowDecomp.solve` builds in iteration `k`
   (same graph, flow, ignore list, constraints; only `k` differs).
 * `lowerboundK` — `MinFlowDecomp.get_lowerbound_k` as a function of its observable ingredients, in the
-  order the code evaluates them:
+  order the code evaluates them (tree with fixes 50cb8a9, 01f9777, 264fceb):
     1. option `lowerbound_k` (default 1);
-    2. `ceil(log2(#distinct int(flow)))` over **all** edges of the internal graph that carry the flow
-       attribute — ignored edges included, exactly as the code does (`math.log2(0)` raises `ValueError`
-       when no edge carries the attribute);
-    3. `stDAG(G).get_width(edges_to_ignore = user's list)` — an opaque input here (the synthetic
-       source/sink edges are *not* in that ignore list, exactly as in the code);
-    4. if `use_min_gen_set_lowerbound`: the size of the minimum generating set, an opaque input; when
-       `MinGenSet` is not solved the bound is not available (`None`, skipped by the caller) — since fix
-       50cb8a9; before it the code called `exit(0)` there (`lowerboundKPre`, kept as the negative witness);
+    2. `ceil(log2(#distinct int(flow)))` over the **non-ignored** edges of the internal graph that carry
+       the flow attribute; skipped when there is no such value (`if len(all_weights) > 0`);
+    3. `stDAG(G).get_width(edges_to_ignore = ignored ∪ source_sink_edges)` — an opaque input here
+       (captured from the real call; certified per run by the antichain the code extracts);
+    4. only if the ignore list is empty and `use_min_gen_set_lowerbound`: the size of the minimum
+       generating set, an opaque input; an unsolved `MinGenSet` gives no bound (`None`);
     5. if `use_subgraph_scanning_lowerbound`: the scanned bound (opaque, `none` when the scan found nothing).
-* `searchHi` — `range(lb, |E(G_internal)| + 1)`.
+  `lowerboundKPre` is the function as it was before those fixes (all edges counted, `math.log2(0)`
+  raising, `exit(0)` on an unsolved `MinGenSet`), kept for the negative witnesses.
+* `searchHi` — `range(lb, |E(G_internal)| + len(subpath_constraints) + 1)` (fix e0ac661).
 -/
 namespace FP.MFD
 open FP FP.Search
@@ -38,10 +38,12 @@ def distinctInt (flows : List Rat) : Nat := ((flows.map pyInt).eraseDups).length
 structure LBIn where
   /-- `optimization_options.get("lowerbound_k", 1)` -/
   optLb : Option Nat := none
-  /-- flow values of all edges of the internal graph carrying the attribute (ignored ones included) -/
+  /-- flow values of the non-ignored edges of the internal graph carrying the attribute -/
   flows : List Rat
-  /-- `stDAG(G).get_width(edges_to_ignore=self.edges_to_ignore)` -/
+  /-- `stDAG(G).get_width(edges_to_ignore = ignored ∪ source_sink_edges)` -/
   width : Nat
+  /-- `len(ignored) == 0` (internal ignore list: for node weights it is never empty) -/
+  ignoreEmpty : Bool := true
   useMgs : Bool := false
   /-- `len(generating set)` if `MinGenSet` was solved -/
   mgs : Option Nat := none
@@ -51,38 +53,45 @@ structure LBIn where
 
 inductive LBOut where
   | value (lb : Nat)
-  | valueError          -- math.log2(0): "math domain error"
+  | valueError          -- math.log2(0): "math domain error" (only before fix 01f9777)
   | exit                -- `exit(0)` inside `_get_lowerbound_with_min_gen_set` (only before fix 50cb8a9)
   deriving Repr, DecidableEq, Inhabited
 
-def lowerboundK (x : LBIn) : LBOut :=
+/-- `get_lowerbound_k` on the current tree: always a value -/
+def lowerboundN (x : LBIn) : Nat :=
   let lb0 := x.optLb.getD 1
   let n := distinctInt x.flows
-  if n = 0 then .valueError else
-  let lb1 := max lb0 (clog2 n)
+  let lb1 := if n = 0 then lb0 else max lb0 (clog2 n)
   let lb2 := max lb1 x.width
   -- `mingenset_lowerbound is not None` guards the update
-  let lb3 := if x.useMgs then max lb2 (x.mgs.getD 0) else lb2
-  let lb4 := if x.useScan then (match x.scan with | some s => max lb3 s | none => lb3) else lb3
-  .value lb4
+  let lb3 := if x.ignoreEmpty && x.useMgs then max lb2 (x.mgs.getD 0) else lb2
+  if x.useScan then (match x.scan with | some s => max lb3 s | none => lb3) else lb3
 
-/-- the behaviour before fix 50cb8a9: an unsolved `MinGenSet` terminated the interpreter -/
+def lowerboundK (x : LBIn) : LBOut := .value (lowerboundN x)
+
+/-- the behaviour before fixes 50cb8a9 / 01f9777 (`flows` then being the values of *all* edges and
+`width` the width with the user's ignore list only): `math.log2(0)` raised, an unsolved `MinGenSet`
+terminated the interpreter, the generating-set bound was used with ignored edges too -/
 def lowerboundKPre (x : LBIn) : LBOut :=
-  if distinctInt x.flows ≠ 0 && x.useMgs && x.mgs.isNone then .exit else lowerboundK x
+  if distinctInt x.flows = 0 then .valueError else
+  if x.useMgs && x.mgs.isNone then .exit else lowerboundK { x with ignoreEmpty := true }
 
-/-- exclusive upper end of the search range: `range(lb, G.number_of_edges() + 1)` -/
-def searchHi (numEdges : Nat) : Nat := numEdges + 1
+/-- exclusive upper end of the search range:
+`range(lb, G.number_of_edges() + len(self.subpath_constraints) + 1)` -/
+def searchHi (numEdges numCons : Nat) : Nat := numEdges + numCons + 1
+
+/-- the range before fix e0ac661 -/
+def searchHiPre (numEdges : Nat) : Nat := numEdges + 1
 
 /-- `MinFlowDecomp.solve` (plain route): lower bound, then the stop-search over `kFlowDecomp` models -/
-def solve (x : LBIn) (numEdges : Nat) (σ : Nat → Status) : Option Outcome :=
-  match lowerboundK x with
-  | .value lo => some (stopSearch σ lo (searchHi numEdges))
-  | _ => none
+def solve (x : LBIn) (numEdges numCons : Nat) (σ : Nat → Status) : Outcome :=
+  stopSearch σ (lowerboundN x) (searchHi numEdges numCons)
 
 /-! ### driver op `mfd.lowerbound` -/
 open Lean in
-/-- `{"op":"mfd.lowerbound","lowerbound_k":n|null,"flows":[q..],"width":n,"use_mgs":b,"mgs":n|null,
-"use_scan":b,"scan":n|null,"num_edges":n}` → `{"result":"value"|"ValueError"|"exit","lb","distinct","log","hi"}` -/
+/-- `{"op":"mfd.lowerbound","lowerbound_k":n|null,"flows":[q..],"width":n,"ignore_empty":b,"use_mgs":b,
+"mgs":n|null,"use_scan":b,"scan":n|null,"num_edges":n,"num_constraints":n}` →
+`{"result":"value","lb","distinct","log","hi"}` -/
 def handleMFD (op : String) (j : Json) : Option (Except String Json) :=
   if op ≠ "mfd.lowerbound" then none else some do
     let optNatField (k : String) : Option Nat := (jNat j k).toOption
@@ -90,6 +99,7 @@ def handleMFD (op : String) (j : Json) : Option (Except String Json) :=
     let width ← jNat j "width"
     let x : LBIn :=
       { optLb := optNatField "lowerbound_k", flows := flows, width := width,
+        ignoreEmpty := (jBool j "ignore_empty").toOption.getD true,
         useMgs := (jBool j "use_mgs").toOption.getD false, mgs := optNatField "mgs",
         useScan := (jBool j "use_scan").toOption.getD false, scan := optNatField "scan" }
     let n := distinctInt flows
@@ -100,6 +110,6 @@ def handleMFD (op : String) (j : Json) : Option (Except String Json) :=
       | .exit => ("exit", none)
     return Json.mkObj [("result", Json.str res), ("lb", natJ lb), ("distinct", Json.num n),
       ("log", natJ (if n = 0 then none else some (clog2 n))),
-      ("hi", natJ ((optNatField "num_edges").map searchHi))]
+      ("hi", natJ ((optNatField "num_edges").map fun e => searchHi e ((optNatField "num_constraints").getD 0)))]
 
 end FP.MFD
